@@ -213,8 +213,15 @@ func findFunctionCallViolation(
 			}
 		}
 
-		// Check if it's a method call (obj.Method)
-		typeInfo := util.ExtractTypeInfo(ctx.pass.TypesInfo.TypeOf(fun.X))
+		// Check if it's a method call (obj.Method). A method promoted through an embedded
+		// field belongs to the type that declares it, not to the type of obj.
+		recvType := ctx.pass.TypesInfo.TypeOf(fun.X)
+		if selection := ctx.pass.TypesInfo.Selections[fun]; selection != nil && selection.Kind() == types.MethodVal {
+			if sig, ok := selection.Obj().Type().(*types.Signature); ok && sig.Recv() != nil {
+				recvType = sig.Recv().Type()
+			}
+		}
+		typeInfo := util.ExtractTypeInfo(recvType)
 		if typeInfo != nil {
 			methodName := fun.Sel.Name
 			if ctx.testOnlyMethods.Match(typeInfo.PkgPath, methodName, typeInfo.TypeName) {
